@@ -1,5 +1,5 @@
 (** C14 - copy operations transfer exactly the source cells. *)
-From TD Require Import Base.Prelude Model.Iter Model.View Model.Ops
+From TD Require Import Base.Prelude Model.Iter Model.View Model.Ops Proofs.CopyWide
   Proofs.ViewGeom Proofs.Frame Proofs.OpsProofs Proofs.CopyProofs.
 
 (** copy_from_slice / clone_from_slice: TooDee's flat fast path and the trait default
@@ -70,6 +70,33 @@ Theorem C14_copy_within_rejects :
   op_copy_within oc v b x0 y0 x1 y1 dx dy = Panic.
 Proof. exact op_copy_within_reject. Qed.
 Print Assumptions C14_copy_within_rejects.
+
+(** ... and destination corners of ANY magnitude, sums of 2^64 and more included (they wrap
+    onto in-range values when overflow checks are off): a non-empty source rectangle whose
+    destination does not fit is rejected with a panic in both build modes - possibly after
+    some rows were copied - and no cell outside the receiver changes *)
+Theorem C14_copy_within_far_corner_rejected :
+  forall v, wf_view v -> forall oc b (x0 y0 x1 y1 dx dy : N),
+  fits v b ->
+  (x0 < x1)%N -> (y0 < y1)%N -> (x1 <= N.of_nat (vcols v))%N -> (y1 <= N.of_nat (vrows v))%N ->
+  (N.of_nat (vcols v) < W)%N -> (N.of_nat (vrows v) < W)%N -> (dx < W)%N -> (dy < W)%N ->
+  ~ ((dx + (x1 - x0) <= N.of_nat (vcols v))%N /\ (dy + (y1 - y0) <= N.of_nat (vrows v))%N) ->
+  exists b', op_copy_within_w oc v b x0 y0 x1 y1 dx dy = Ok (true, b') /\
+    length b' = length b /\ forall i, ~ in_view v i -> nth_error b' i = nth_error b i.
+Proof. exact op_copy_within_w_rejects. Qed.
+Print Assumptions C14_copy_within_far_corner_rejected.
+
+(** non-vacuity: on a 4x3, rows 0..2 to row usize::MAX without overflow checks: the row
+    sum wraps to 1, row 1 is copied onto row 0, then the call panics; with overflow checks
+    nothing is copied *)
+Example C14_far_corner_example :
+  let v := view_of_owned 4 3 12 in
+  let b := map N.of_nat (seq 0 12) in
+  op_copy_within_w false v b 0 0 2 2 0 18446744073709551615
+    = Ok (true, map N.of_nat [4; 5; 2; 3; 4; 5; 6; 7; 8; 9; 10; 11]) /\
+  op_copy_within_w true v b 0 0 2 2 0 18446744073709551615 = Ok (true, b) /\
+  op_copy_within_w false v b 0 0 2 1 18446744073709551615 1 = Ok (true, b).
+Proof. repeat split; vm_compute; reflexivity. Qed.
 
 (** non-vacuity: a down-left overlapping copy on a 6x6 *)
 Example C14_example :
